@@ -37,7 +37,8 @@ RULE = ("life: calls are made through hass.services.async_call or by a script (s
         "answers-not-dict, binding (two triples of parameter lists x 8 data dicts x with/without response x Home Assistant / "
         "script / overlapping), names (three services incl. foreign domains + trigger + yaml doc strings on one function); "
         "five probes per subsystem with names that differ only in letter case (two functions; a redefinition; "
-        "another context; one function naming both spellings and a spelling of the built-in pyscript.reload - the last two oracle only).  out: entry point x subsets of {context, blocking, "
+        "another context; one function naming both spellings - oracle only) and two with spellings of pyscript's built-in "
+        "service names (alone: model and oracle; among other names / in a foreign domain: model only).  out: entry point x subsets of {context, blocking, "
         "return_response, limit, plain} with right-typed, wrong-typed and falsy-but-wrong-typed values (0, '', None, {}, 0.0) "
         "x target supports_response.  "
         "Non-trivial = at least one registration; distinct by payload.")
@@ -521,9 +522,18 @@ def probe_cases(legacy):
         {"k": "load", "ctx": "a", "defs": [{"var": "f", "gen": 1, "decl": [["pyscript.Case1", "none"], ["pyscript.case1", "none"]]}]}]
         + calls + [{"k": "rundel", "ctx": "a", "fn": "opA", "var": "f"}] + calls})
     # a spelling variant of a BUILT-IN service name (pyscript.reload): `@service` must refuse it like the name itself
-    out.append({"kind": "life", "legacy": legacy, "probe": "builtin-case", "svcs": ["pyscript.reload"], "oracle_only": True, "ops": [
+    out.append({"kind": "life", "legacy": legacy, "probe": "builtin-case", "svcs": ["pyscript.reload"], "ops": [
         {"k": "load", "ctx": "a", "defs": [{"var": "f", "gen": 1, "decl": [["pyscript.Reload", "none"]]}]},
         {"k": "rundel", "ctx": "a", "fn": "opA", "var": "f"}]})
+    # the offending name among others, and in a foreign domain (the test does not look at the domain): legacy keeps what
+    # was registered before it, the new subsystem invalidates the whole function.  Compared with the model only - what the
+    # OTHER names of such a function should do is not part of the property.
+    out.append({"kind": "life", "legacy": legacy, "probe": "builtin-case-multi", "model_only": True,
+                "svcs": ["pyscript.s1", "pyscript.s2", "test.reload", "pyscript.jupyter_kernel_start"], "ops": [
+        {"k": "load", "ctx": "a", "defs": [{"var": "f", "gen": 1, "decl": [["pyscript.s1", "none"], ["test.RELOAD", "none"], ["pyscript.s2", "none"]]},
+                                           {"var": "g", "gen": 2, "decl": [["pyscript.s2", "optional"]]}]},
+        {"k": "rundef", "ctx": "a", "fn": "opA", "var": "g", "gen": 3, "decl": [["pyscript.Jupyter_Kernel_Start", "none"], ["pyscript.s2", "none"]]},
+        {"k": "rundel", "ctx": "a", "fn": "opA", "var": "f"}, {"k": "unload", "ctx": "a"}]})
     return out
 
 
@@ -1002,7 +1012,10 @@ def render_life_impl(p):
     for o, st in zip(p["ops"], p["_obs"]):
         if "state" in st:
             under = any(e[0] == "rem" and e[1] == 0 for e in st["events"])
-            out.append(["state"] + st["state"] + [["flags", 0, 1 if under or any_under(p, st) else 0]])
+            # a handler that is not a generated @service function (gen -1: pyscript's own reload / jupyter services) is
+            # not one of pyscript's script entries - the model's tables hold only those
+            rows = [r if r[4] != -1 else [r[0], 0, r[2], r[3], "-", "-"] for r in st["state"]]
+            out.append(["state"] + rows + [["flags", 0, 1 if under or any_under(p, st) else 0]])
         elif "calls" in st:
             out.append(["calls"] + [["call", norm_call(r["call"])] for r in st["calls"]])
         else:
@@ -1217,7 +1230,7 @@ def judge_out(p):
 
 def verdict(c):
     p = c.payload
-    if "_obs" not in p:
+    if "_obs" not in p or p.get("model_only"):
         return None
     if p["kind"] == "out":
         r = judge_out(p)
